@@ -30,8 +30,10 @@ RelClause(e) ==
                           THEN "ok" ELSE "ProportionalToMass")
   ELSE IF e.rel = "rest" THEN
        (IF Num(e.a0) /\ Num(e.at) /\ ActClose(e.at.v, M(e.a0.v, E(Neg(M(D(Ln2, e.Thalf), e.t))))) THEN "ok" ELSE "RestIsHalfLifeDecay")
-  ELSE IF e.rel = "exposure" THEN      \* A(t2) >= A(t1) * exp(-s1 (t2 - t1)), with 1e-9 slack
-       (IF Num(e.a1) /\ Num(e.a2) /\ Ge(Mul(e.a2.v, Add(One, Sci(1, -9))), M(e.a1.v, E(Neg(M(e.s1, Sub(e.t2, e.t1)))))) THEN "ok" ELSE "ExposureMonotoneUpToDepletion")
+  ELSE IF e.rel = "exposure" THEN      \* A(t2) >= A(t1) * exp(-s1 (t2 - t1)), with 1e-9 slack; a bound below 1e-300 is
+                                       \* below what a double can hold (the activity has underflowed to 0, correctly)
+       (IF Num(e.a1) /\ Num(e.a2) /\ Ge(Add(Mul(e.a2.v, Add(One, Sci(1, -9))), Sci(1, -300)), M(e.a1.v, E(Neg(M(e.s1, Sub(e.t2, e.t1))))))
+        THEN "ok" ELSE "ExposureMonotoneUpToDepletion")
   ELSE "UnknownRelation"
 \* natural element: the sample's activity of a product = sum over isotopes of activity(isotope, mass * fraction * abundance / 100)
 SampleClause(e) ==
